@@ -24,6 +24,7 @@ import (
 	"sort"
 	"strings"
 	"sync"
+	"time"
 
 	dbm "github.com/lianxiangcloud/linkchain/libs/db"
 
@@ -468,6 +469,9 @@ type kvJob struct {
 	Walks   int    `json:"walks"`
 	Dir     string `json:"dir"`
 	Idx     int    `json:"idx"`
+	Budget  int    `json:"budgetSec"` // stop taking further steps after this long (0: no limit)
+	Special string `json:"special"`   // "badger-gc-after-close": the dedicated close/reopen/lifetime scenario
+	WaitSec int    `json:"waitSec"`
 }
 
 type kvJobResult struct {
@@ -476,6 +480,38 @@ type kvJobResult struct {
 	Nontrivial int              `json:"nontrivial"`
 	Violations []core.Violation `json:"violations"`
 	Sample     interface{}      `json:"sample"`
+	CutSteps   int              `json:"steps_not_replayed_time_budget"`
+}
+
+// gcAfterClose: "also after close and reopen" includes the LIFETIME of the process that closed a store.
+// BadgerDB starts a value-log GC goroutine with a 10-minute ticker per handle: the process must still answer
+// lookups after a closed handle's ticker has fired.
+func gcAfterClose(j kvJob) {
+	w := bufio.NewWriter(os.Stdout)
+	defer w.Flush()
+	fmt.Fprintf(w, "AT %s\n", `["open badger","set k=v (x3)","close","reopen","wait past the GC interval","get k (x3)"]`)
+	w.Flush()
+	os.RemoveAll(j.Dir)
+	os.MkdirAll(j.Dir, 0755)
+	db := dbm.NewDB("gc", dbm.BadgerBackend, j.Dir, 1)
+	keys := [][]byte{[]byte("a"), []byte("b\xff"), []byte("c")}
+	for i, k := range keys {
+		db.Set(k, []byte{byte(i + 1)})
+	}
+	db.Close()
+	db2 := dbm.NewDB("gc", dbm.BadgerBackend, j.Dir, 1)
+	time.Sleep(time.Duration(j.WaitSec) * time.Second)
+	var res kvJobResult
+	res.Behaviours, res.Nontrivial = 1, 1
+	for i, k := range keys {
+		res.Steps++
+		if v := db2.Get(k); len(v) != 1 || v[0] != byte(i+1) {
+			res.Violations = append(res.Violations, core.Violation{Key: "mismatch/badger/after-reopen", Desc: fmt.Sprintf("key %x reads %x after close, reopen and %d s", k, v, j.WaitSec)})
+		}
+	}
+	db2.Close()
+	rj, _ := json.Marshal(res)
+	fmt.Fprintf(w, "RESULT %s\nDONE\n", rj)
 }
 
 func kvSeqs(g *mbt.Graph, seed int64, nWalks int, full bool, idx int) [][]int {
@@ -511,6 +547,11 @@ func c19Child(c *core.Ctx) {
 		fmt.Fprintln(os.Stderr, err)
 		os.Exit(3)
 	}
+	if j.Special == "badger-gc-after-close" {
+		gcAfterClose(j)
+		return
+	}
+	started := time.Now()
 	be, tb := kvBackends[j.Backend], kvTables[j.Table]
 	in := &kvInst{be: be, keys: tb.keys[:j.NKeys], allKeys: tb.keys, table: tb.name, dir: j.Dir}
 	emptyKey := tb.name == "empty-key"
@@ -526,6 +567,12 @@ func c19Child(c *core.Ctx) {
 	w := bufio.NewWriter(os.Stdout)
 	defer w.Flush()
 	for si, seq := range seqs {
+		if j.Budget > 0 && time.Since(started) > time.Duration(j.Budget)*time.Second {
+			for _, rest := range seqs[si:] {
+				res.CutSteps += len(rest)
+			}
+			break
+		}
 		if err := in.reset(); err != nil {
 			fmt.Fprintln(os.Stderr, "reset:", err)
 			os.Exit(3)
@@ -548,6 +595,10 @@ func c19Child(c *core.Ctx) {
 				}
 			}()
 			for pi, ei := range seq {
+				if j.Budget > 0 && pi%256 == 0 && time.Since(started) > time.Duration(j.Budget)*time.Second {
+					res.CutSteps += len(seq) - pi
+					return
+				}
 				e := g.Edges[ei]
 				var a kvAct
 				var st kvState
@@ -673,9 +724,14 @@ func runC19(c *core.Ctx) {
 		for ti := range kvTables {
 			full := be.backend == dbm.MemDBBackend || c.Thorough()
 			jobs = append(jobs, kvJob{Edges: edgeFile, Backend: bi, Table: ti, Full: full, NKeys: nKeys, Walks: c.Pick(40, 400),
-				Dir: filepath.Join(base, fmt.Sprintf("j%d", len(jobs))), Idx: len(jobs)})
+				Dir: filepath.Join(base, fmt.Sprintf("j%d", len(jobs))), Idx: len(jobs), Budget: c.Pick(0, 240)})
 		}
 	}
+	if c.Thorough() {
+		// first in the queue: it mostly sleeps (10.5 minutes) while the other jobs run
+		jobs = append([]kvJob{{Special: "badger-gc-after-close", WaitSec: 630, Dir: filepath.Join(base, "gc"), Idx: 9999}}, jobs...)
+	}
+	cutSteps := 0
 	var wg sync.WaitGroup
 	var mu sync.Mutex
 	sem := make(chan struct{}, 12)
@@ -687,14 +743,25 @@ func runC19(c *core.Ctx) {
 			defer func() { <-sem }()
 			arg, _ := json.Marshal(j)
 			results, at, crash := c.RunChild(string(arg), c.MinutesT(8, 60))
-			be, tb := kvBackends[j.Backend], kvTables[j.Table]
+			be, tb := kvBackends[0], kvTables[0]
+			if j.Special == "" {
+				be, tb = kvBackends[j.Backend], kvTables[j.Table]
+			}
 			mu.Lock()
 			defer mu.Unlock()
+			if j.Special != "" && crash != "" && crash != "TIMEOUT" {
+				mu.Unlock()
+				c.Violate("crash/badger/gc-after-close", "a process that closed and reopened a Badger store died while it waited "+fmt.Sprint(j.WaitSec)+" s (the closed handle's value-log GC ticker fires after 10 minutes)",
+					map[string]interface{}{"scenario": at, "crash": crash})
+				mu.Lock()
+				return
+			}
 			for _, r := range results {
 				var jr kvJobResult
 				if json.Unmarshal([]byte(r), &jr) != nil {
 					continue
 				}
+				cutSteps += jr.CutSteps
 				o.Traces += jr.Behaviours
 				o.Evaluations += jr.Steps
 				o.Distinct += jr.Nontrivial
@@ -735,6 +802,7 @@ func runC19(c *core.Ctx) {
 	wg.Wait()
 	c.SetExtra("backends", backendNames())
 	c.SetExtra("jobs", len(jobs))
+	c.SetExtra("steps_not_replayed_time_budget", cutSteps)
 	c.SetExtra("bounds", map[string]interface{}{"config": cfg, "keys": nKeys})
 }
 
